@@ -110,6 +110,7 @@ func vf01Align(exts []TLSExtension, h *vfHello) (map[TLSExtension]int, bool) {
 type vf01Model struct {
 	random  []byte
 	sni     *string
+	sniNone bool // the last SetSNI used a name that is not sent (IP literal, empty): no server_name extension expected
 	suites  []uint16
 	sid     []byte
 	hasSid  bool
@@ -148,8 +149,22 @@ func vf01ApplyMutators(t *rapid.T, uc *UConn, m *vf01Model) {
 			}
 		case 1:
 			name := vfGenDNSName(t, l+"_sni")
+			switch rapid.IntRange(0, 7).Draw(t, l+"_sni_kind") {
+			case 0: // names that are not sent as SNI (RFC 6066: no IP literals): the extension disappears
+				name = rapid.SampledFrom([]string{"192.0.2.7", "2001:db8::7", ""}).Draw(t, l+"_sni_literal")
+				uc.SetSNI(name)
+				none := ""
+				m.sni, m.sniNone = &none, true
+				m.kinds = append(m.kinds, "sni-cleared")
+				continue
+			case 1: // absolute name: the trailing dot is not part of the SNI value
+				uc.SetSNI(name + ".")
+				m.kinds = append(m.kinds, "sni-trailing-dot")
+				m.sni, m.sniNone = &name, false
+				continue
+			}
 			uc.SetSNI(name)
-			m.sni = &name
+			m.sni, m.sniNone = &name, false
 			m.kinds = append(m.kinds, "sni")
 		case 2:
 			cur := uc.HandshakeState.Hello.CipherSuites
@@ -316,7 +331,9 @@ func TestVerifC01WireIsRaw(t *testing.T) {
 				continue
 			}
 			if _, isSNI := e.(*SNIExtension); isSNI && m.sni != nil {
-				wantTypes = append(wantTypes, 0) // SetSNI put a DNS name into it, so it is sent even if it was not before
+				if !m.sniNone {
+					wantTypes = append(wantTypes, 0) // SetSNI put a DNS name into it, so it is sent even if it was not before
+				}
 				continue
 			}
 			if wt := align[e]; wt != -3 && wt != 21 {
@@ -417,6 +434,9 @@ func TestVerifC01WireIsRaw(t *testing.T) {
 				st.Violation(rt, "%s: extension list edits not visible: wire %v, expected %v", what, got, wantTypes)
 			}
 			if m.sni != nil {
+				if name, present := h.SNI(); present && m.sniNone {
+					st.Violation(rt, "%s: SetSNI with a name that is not sent as SNI (IP literal or empty): wire still has server_name %q", what, name)
+				}
 				if name, present := h.SNI(); present && name != *m.sni {
 					st.Violation(rt, "%s: SetSNI(%q) not visible: wire has %q", what, *m.sni, name)
 				}
